@@ -280,3 +280,33 @@ def _rvop(rv):
 @rule("C10", "C10.R8", "tables can be pruned by time window only because every entry (tombstones too) widens the recorded range")
 def r8(cx):
     rule_table_bounds_cover_every_entry(cx)
+
+
+@rule("C10", "C10.R9", "the version order is total: equal (key, timestamp) are told apart by the sequence number")
+def r9(cx):
+    """`cmp_by_timestamp` is the key order of the B+tree version index and the merge order of every history cursor.  Two
+    committed versions of a key may carry the same timestamp (timestamps are only non-decreasing; `set k@5` then
+    `soft-delete k@5`).  If the order stops at the timestamp they are EQUAL keys: the index insert overwrites the first
+    with the second (a retained version is lost, the two back ends disagree) and the merge order among them is arbitrary.
+    Decided: the comparison consults the sequence number (trailer) of both keys."""
+    f = cx.f
+    b = f.body("InternalKey::cmp_by_timestamp")
+    reads = set()
+    for i, j, lhs, rv, line in b.assigns():
+        from ..core import rvalue_places
+        for pl in rvalue_places(rv):
+            for p_ in pl[1:]:
+                if isinstance(p_, list) and p_[0] == "f":
+                    reads.add(p_[2])
+    calls = {c.primary.split("::")[-1] for c in b.calls if c.bb in b.live}
+    for cb in f.closures_of(b):
+        calls |= {c.primary.split("::")[-1] for c in cb.calls if c.bb in cb.live}
+        for i, j, lhs, rv, line in cb.assigns():
+            for pl in rvalue_places(rv):
+                for p_ in pl[1:]:
+                    if isinstance(p_, list) and p_[0] == "f":
+                        reads.add(p_[2])
+    cx.check("user_key" in reads and "timestamp" in reads, "cmp_by_timestamp orders by user key, then timestamp", "version-order-shape", b.where())
+    cx.check("trailer" in reads or "seq_num" in calls, "...and breaks ties by the sequence number", "version-order-not-total", b.where(),
+             "InternalKey::cmp_by_timestamp stops at the timestamp: two versions of a key with the same timestamp are equal keys for the version index (the second insert "
+             "overwrites the first: history loses a retained version once the index holds them, and differs from the index-less back end) and for the history merge")
